@@ -19,7 +19,8 @@ use std::collections::{BTreeMap, BTreeSet};
 use std::rc::Rc;
 use std::time::Instant;
 
-pub const FAMILIES: [&str; 8] = [
+pub const FAMILIES: [&str; 9] = [
+    "skipped-chain-behind-ephemeral",
     "chain-output",
     "chain-ephemeral-leaf-output",
     "chain-alternating",
@@ -29,7 +30,8 @@ pub const FAMILIES: [&str; 8] = [
     "fan-out",
     "chain-always-root-ephemerals",
 ];
-pub const CASCADES: [&str; 8] = [
+pub const CASCADES: [&str; 9] = [
+    "late-fail-through-skipped",
     "first-build",
     "up-to-date",
     "invalidate-root-unchanged",
@@ -99,6 +101,21 @@ fn build_family(family: &str, n: usize) -> (Vec<Def>, GraphState, usize, usize) 
                 }
             }
             (defs, g, 0, n - 1)
+        }
+        "skipped-chain-behind-ephemeral" => {
+            // 0: Y (Always)   1: E (Ephemeral root)   2..n-2: chain of Outputs below E   n-1: X (Output) <- E, Y
+            let y = add(&mut defs, &mut g, Kind::Always);
+            let e = add(&mut defs, &mut g, Kind::Ephemeral);
+            let mut prev = e;
+            for _ in 0..n.saturating_sub(3).max(1) {
+                let j = add(&mut defs, &mut g, Kind::Output);
+                g.edges.insert((j, prev), vec![]);
+                prev = j;
+            }
+            let x = add(&mut defs, &mut g, Kind::Output);
+            g.edges.insert((x, e), vec![]);
+            g.edges.insert((x, y), vec![]);
+            (defs, g, y, x)
         }
         "layered" => {
             // sqrt(n)-ish layers of width w, each job depends on 2 jobs of the previous layer
@@ -508,6 +525,18 @@ fn run_case(family: &str, size: usize, cascade: &str, order: &str, hash_seed: u6
                     world.disk.remove(p);
                 }
                 check(&mut world, "invalidate-leaf", &none, None, &mut problems);
+            }
+            "late-fail-through-skipped" => {
+                // only meaningful where an Ephemeral becomes required late: the Always root changes,
+                // the Ephemeral below it is re-executed for one consumer and fails, after its other
+                // (up to date) consumers were already skipped - the failure has to travel through them
+                if family == "skipped-chain-behind-ephemeral" {
+                    *world.g.ext.entry(root).or_insert(0) += 1;
+                    let mut f = BTreeSet::new();
+                    f.insert(gvd.jobs.iter().position(|j| j.kind == Kind::Ephemeral).unwrap());
+                    check(&mut world, "late-fail-through-skipped", &f, None, &mut problems);
+                    check(&mut world, "after-late-fail", &none, None, &mut problems);
+                }
             }
             "fail-root" => {
                 // make everything need to run again, then fail the root
